@@ -47,6 +47,16 @@ func (v *Value) IsString() bool {
 	return v.getResolvedValue().Kind() == reflect.String
 }
 
+// isStringer checks whether String() renders the underlying value through its
+// own fmt.Stringer implementation (i. e. with text the value controls).
+func (v *Value) isStringer() bool {
+	if v.IsNil() {
+		return false
+	}
+	_, ok := v.Interface().(fmt.Stringer)
+	return ok
+}
+
 // IsBool checks whether the underlying value is a bool
 func (v *Value) IsBool() bool {
 	return v.getResolvedValue().Kind() == reflect.Bool
